@@ -26,8 +26,10 @@ MagLE(a, b) == CmpSpec(AbsD(a.res), AbsD(b.res)) <= 0
 Inx(r) == Bit(r.fl, F_INEXACT)
 Ovf(r) == Bit(r.fl, F_OVF)
 \* same observable outcome (value representation, flags, error, count)
+\* a composite function that returns an error leaves an unspecified destination (C03): only flags and error compared
+CompositeOps == {"sqrt", "cbrt", "exp", "ln", "log10", "pow"}
 SameOut(a, b) == /\ a.panic = b.panic
-                 /\ SameRepr(a.res, b.res) /\ a.res.cs = b.res.cs
+                 /\ ((a.err = "" \/ a.op \notin CompositeOps) => (SameRepr(a.res, b.res) /\ a.res.cs = b.res.cs))
                  /\ a.fl = b.fl /\ a.err = b.err /\ a.cnt = b.cnt
 Run(ev, tag) == LET S == {i \in 1..Len(ev.runs) : ev.runs[i].tag = tag} IN ev.runs[CHOOSE i \in S : TRUE]
 HasRun(ev, tag) == \E i \in 1..Len(ev.runs) : ev.runs[i].tag = tag
